@@ -31,17 +31,25 @@ impl Wake for Flag {
 /// Directed interleaving: a thread spins on GATE, which opens when a waker of the armed request is released (a
 /// queued request being cancelled or notified), and at the latest when the arming thread has finished its step.
 static ARMED: AtomicUsize = AtomicUsize::new(0);
+static ARMED_CLONE: AtomicUsize = AtomicUsize::new(0);
+fn arm_clone(f: &Arc<Flag>) { GATE.store(false, Ordering::SeqCst); STEP_DONE.store(false, Ordering::SeqCst); ARMED_CLONE.store(Arc::as_ptr(f) as usize, Ordering::SeqCst); }
 static GATE: AtomicBool = AtomicBool::new(false);
 static STEP_DONE: AtomicBool = AtomicBool::new(false);
 fn step_done() { STEP_DONE.store(true, Ordering::SeqCst); }
 fn arm(f: &Arc<Flag>) { GATE.store(false, Ordering::SeqCst); STEP_DONE.store(false, Ordering::SeqCst); ARMED.store(Arc::as_ptr(f) as usize, Ordering::SeqCst); }
-fn open_gate() { ARMED.store(0, Ordering::SeqCst); GATE.store(true, Ordering::SeqCst); }
+fn open_gate() { ARMED.store(0, Ordering::SeqCst); ARMED_CLONE.store(0, Ordering::SeqCst); GATE.store(true, Ordering::SeqCst); }
 fn wait_gate() { while !GATE.load(Ordering::SeqCst) { std::thread::yield_now(); } }
 
 fn yielding_waker(f: Arc<Flag>) -> Waker {
     use std::task::{RawWaker, RawWakerVTable};
     unsafe fn clone(p: *const ()) -> RawWaker {
         unsafe { Arc::increment_strong_count(p as *const Flag); }
+        // (registration instant of an armed request: see drop_w)
+        if ARMED_CLONE.load(Ordering::SeqCst) == p as usize {
+            ARMED_CLONE.store(0, Ordering::SeqCst);
+            GATE.store(true, Ordering::SeqCst);
+            for _ in 0..200 { if STEP_DONE.load(Ordering::SeqCst) { break; } std::thread::yield_now(); }
+        }
         std::thread::yield_now();
         RawWaker::new(p, &VT)
     }
@@ -65,7 +73,7 @@ fn yielding_waker(f: Arc<Flag>) -> Waker {
             ARMED.store(0, Ordering::SeqCst);
             GATE.store(true, Ordering::SeqCst);
             // give the gated thread time to perform its step (bounded: it may need a lock this thread still holds)
-            for _ in 0..3000 { if STEP_DONE.load(Ordering::SeqCst) { break; } std::thread::yield_now(); }
+            for _ in 0..200 { if STEP_DONE.load(Ordering::SeqCst) { break; } std::thread::yield_now(); }
         }
         std::thread::yield_now();
     }
@@ -219,6 +227,43 @@ fn c13_cancel_vs_new(limit: usize) {
     let w = yielding_waker(f2.clone());
     let mut cx = Context::from_waker(&w);
     if req2.as_mut().poll(&mut cx).is_pending() { violation("C13", "woken request polled while a slot is free did not get the token"); }
+}
+
+/// All slots taken. This thread polls a new request; at the instant the request's waker is cloned for
+/// registration another thread drops a token. Afterwards the request is either served or has been woken.
+fn c13_register_vs_release(limit: usize) {
+    let cfg = Config::with_conns(limit.try_into().unwrap());
+    let runner = Arc::new(cfg.async_runner());
+    let mut tokens: Vec<Token> = (0..limit).map(|_| take_token(&runner)).collect();
+    let victim = tokens.pop().unwrap();
+    let r1 = runner.clone();
+    let mut req: Pin<Box<dyn Future<Output = Token>>> = Box::pin(async move { r1.get_token().await });
+    let f = Arc::new(Flag { woken: AtomicBool::new(false), wakes: AtomicUsize::new(0) });
+    arm_clone(&f);
+    let other = std::thread::spawn(move || {
+        wait_gate();
+        drop(victim);
+        step_done();
+    });
+    let first = {
+        let w = yielding_waker(f.clone());
+        let mut cx = Context::from_waker(&w);
+        req.as_mut().poll(&mut cx)
+    };
+    open_gate();
+    other.join().unwrap();
+    match first {
+        Poll::Ready(t) => drop(t),
+        Poll::Pending => {
+            if !f.woken.load(Ordering::SeqCst) {
+                violation("C13", "1 slot free, 1 request pending (it was registering while the slot was freed), not woken (stranded slot)");
+            }
+            let w = yielding_waker(f.clone());
+            let mut cx = Context::from_waker(&w);
+            if req.as_mut().poll(&mut cx).is_pending() { violation("C13", "woken request polled while a slot is free did not get the token"); }
+        }
+    }
+    drop(tokens);
 }
 
 fn c14(ntokens: usize, droppers: usize) {
@@ -530,6 +575,8 @@ fn main() {
             c13_with(2, 3, true);
             c13_cancel_vs_new(1);
             c13_cancel_vs_new(2);
+            c13_register_vs_release(1);
+            c13_register_vs_release(2);
         }
         Some("c13m") => { c13_cancel_vs_new(1); }
         Some("c14") => {
